@@ -309,6 +309,55 @@ func vfC18Run(run *vfkit.Run, cs *vfC18Case) {
 		if afterResume {
 			run.Count("half_open_losses_detected_after_resume", 1)
 		}
+	case "ws-half-open":
+		// the same over WebSocket: the server stops reading (so it answers no ping any more) without closing anything.
+		// Only the keepalive can notice - its ping runs into the transport's ping timeout - and it must close the
+		// connection so that the loss is reported.
+		hold := make(chan struct{})
+		wp := vfNewWSPeer(nil, func(w *vfWSConn) {
+			if err := vfWSNegotiate(w, false, true); err != nil {
+				return
+			}
+			for {
+				m, err := w.Read() // pings are answered while a read is under way
+				if err != nil {
+					return
+				}
+				if strings.Contains(m, "go-deaf") {
+					<-hold // from now on nothing is read: pings stay unanswered; the connection stays open
+					return
+				}
+			}
+		})
+		defer wp.Stop()
+		defer close(hold)
+		c, obs, err := vfNewClient(vfClientOpt{Addr: wp.URL(), Insecure: true, Keepalive: iv}, nil)
+		if err != nil {
+			run.Inconclusive("newclient")
+			return
+		}
+		if err := c.Connect(); err != nil {
+			run.Inconclusive("connect-ws")
+			return
+		}
+		// the session works: keepalives are answered for a while
+		time.Sleep(10 * iv)
+		if obs.CountState(StateDisconnected) != 0 {
+			run.Inconclusive("ws-session-lost-early")
+			return
+		}
+		if err := c.SendRaw("<message id='go-deaf' to='server'><body>stop listening</body></message>"); err != nil {
+			run.Inconclusive("ws-send")
+			return
+		}
+		reported := vfWaitUntil(30*time.Second, func() bool {
+			return len(obs.Errors()) >= 1 && obs.CountState(StateDisconnected) >= 1
+		})
+		if !reported {
+			run.Violation("C18/dead-connection-not-closed-by-keepalive:websocket", fmt.Sprintf("the server answers no ping since 30s (keepalive every %v, ping timeout %v), yet the loss was not reported: %d error callbacks, %d Disconnected events", iv, pingTimeout, len(obs.Errors()), obs.CountState(StateDisconnected)), cs)
+			return
+		}
+		run.Count("websocket_half_open_losses_detected", 1)
 	case "ends-during-ping":
 		// The session ends (the stream becomes unreadable; the socket stays open and writable) at a moment when the
 		// keepalive is in the middle of a ping. Once that ping returns, the loop must notice that its session is over.
@@ -519,6 +568,9 @@ func vfC18Run(run *vfkit.Run, cs *vfC18Case) {
 			run.Inconclusive("newclient")
 			return
 		}
+		if cs.Variant == "logged" {
+			c.transport.LogTraffic(io.Discard) // what NewClient does with Config.StreamLogger
+		}
 		var resumeErr error
 		resumed := make(chan struct{})
 		if cs.Variant == "in-handler" {
@@ -626,11 +678,15 @@ func TestVf_C18(t *testing.T) {
 		cases = append(cases, &vfC18Case{Mode: "e2e", Interval: []int{5000, 10000, 20000, 40000}[i%4], K: 10})
 		cases = append(cases, &vfC18Case{Mode: "e2e", Interval: []int{5000, 10000, 20000, 40000}[i%4], K: 10, Variant: "in-handler"})
 		cases = append(cases, &vfC18Case{Mode: "e2e", Interval: []int{10000, 20000, 40000, 5000}[i%4], K: 10, Variant: "tls"})
+		cases = append(cases, &vfC18Case{Mode: "e2e", Interval: []int{20000, 40000, 5000, 10000}[i%4], K: 10, Variant: "logged"})
 		cases = append(cases, &vfC18Case{Mode: "clean-close", Interval: []int{5000, 10000, 20000, 40000}[i%4], K: 4})
 		cases = append(cases, &vfC18Case{Mode: "half-open", Interval: []int{5000, 10000, 20000, 40000}[i%4], K: 4})
 		cases = append(cases, &vfC18Case{Mode: "half-open", Interval: []int{10000, 20000, 40000, 5000}[i%4], K: 4, Variant: "after-resume"})
 		cases = append(cases, &vfC18Case{Mode: "one-keepalive", Interval: []int{50, 100, 200, 20}[i%4], K: 25})
 		cases = append(cases, &vfC18Case{Mode: "ends-during-ping", Interval: []int{2000, 5000, 1000, 10000}[i%4], K: 1})
+		if i == 0 || vfkit.Thorough() && i%10 == 0 {
+			cases = append(cases, &vfC18Case{Mode: "ws-half-open", Interval: 50000, K: 1})
+		}
 	}
 	run.Exhaustive(true)
 	var wg sync.WaitGroup
